@@ -163,18 +163,25 @@ def table_kind(cls, arg):
     dedup2_{prefixes,suffixes,args} = "must be de-duped by returning 2" (Dedup.OVERRIDDEN); dedup1_{prefixes,suffixes,
     args,regex} = "must be de-duped by returning 1" (Dedup.UNIQUE); "argument prefixes that are actually not used as a
     prefix must never be deduplicated because they are defined by what comes after them".
-    None = the tables leave it open (both de-dup tables match, or a prepend prefix used as a bare option)."""
+    None = the tables leave it open (both de-dup tables match, or a prepend prefix used as a bare option).
+    One overlap is NOT open: an argument that begins with an override OPTION of the class (a dedup2 prefix: -I, -D ...)
+    and whose only once-only match is the library-file TAIL of its value (`-Ivendor.a`, `-DEXT=.so`).  The property
+    statement names the override kinds by the option and names as once-only "a library file"; an argument that starts
+    with the option is that option's argument, not a library file -> override-type."""
     front = bool(cls.prepend_prefixes) and arg.startswith(tuple(cls.prepend_prefixes))
     if arg in cls.prepend_prefixes:
         return None
     if arg in cls.dedup1_prefixes or arg in cls.dedup2_prefixes:
         return Kind(front, False, False)
-    ovr = arg in cls.dedup2_args or any(arg.startswith(x) for x in cls.dedup2_prefixes) or any(arg.endswith(x) for x in cls.dedup2_suffixes)
-    once = (arg in cls.dedup1_args or any(arg.startswith(x) for x in cls.dedup1_prefixes)
-            or any(arg.endswith(x) for x in cls.dedup1_suffixes) or bool(cls.dedup1_regex.search(arg)))
-    if ovr and once:
+    ovr_option = any(arg.startswith(x) for x in cls.dedup2_prefixes)
+    ovr = arg in cls.dedup2_args or ovr_option or any(arg.endswith(x) for x in cls.dedup2_suffixes)
+    once_named = arg in cls.dedup1_args or any(arg.startswith(x) for x in cls.dedup1_prefixes)
+    once_tail = any(arg.endswith(x) for x in cls.dedup1_suffixes) or bool(cls.dedup1_regex.search(arg))
+    if ovr and (once_named or once_tail):
+        if ovr_option and not once_named:
+            return Kind(front, True, False)
         return None
-    return Kind(front, ovr, once)
+    return Kind(front, ovr, once_named or once_tail)
 
 
 def table_probe(cls):
